@@ -57,7 +57,7 @@ func checkC10(c *Ctx) {
 		}
 		tt := t
 		sel := func(cl ssa.CallInstruction) bool {
-			return (IsCallTo(cl, tt.inner) || IsCallTo(cl, "(go.uber.org/zap/zapcore.WriteSyncer).Write")) && cl.Common().IsInvoke() && cl.Common().Method.Name() == tt.m
+			return (IsCallTo(cl, tt.inner) || IsCallTo(cl, "(go.uber.org/zap/zapcore.WriteSyncer).Write")) && cl.Common().IsInvoke() && FNm(cl.Common().Method) == tt.m
 		}
 		var inner *ssa.Call
 		if t.typ == "CheckedEntry" {
@@ -67,11 +67,11 @@ func checkC10(c *Ctx) {
 				}
 			}
 			if inner == nil {
-				c.Bad("R10.4", fn.String(), "visits-all", fn.Pos(), "no delegating call")
+				c.Bad("R10.4", FStr(fn), "visits-all", fn.Pos(), "no delegating call")
 				continue
 			}
 			ok, over, why := LoopVisitsAll(inner.Parent(), inner)
-			c.Check(ok, "R10.4", fn.String(), "visits-all", inner.Pos(), "every element of %s is visited whatever the earlier ones returned %s", over, why)
+			c.Check(ok, "R10.4", FStr(fn), "visits-all", inner.Pos(), "every element of %s is visited whatever the earlier ones returned %s", over, why)
 		} else {
 			ok, why, in2, _ := VisitsAll(fn, sel, fn.Params[0])
 			inner = in2
@@ -79,16 +79,16 @@ func checkC10(c *Ctx) {
 			if inner != nil {
 				pos = inner.Pos()
 			}
-			c.Check(ok, "R10.4", fn.String(), "visits-all", pos, "every element of %s is visited whatever the earlier ones returned %s", PN(fn.Params[0]), why)
+			c.Check(ok, "R10.4", FStr(fn), "visits-all", pos, "every element of %s is visited whatever the earlier ones returned %s", PN(fn.Params[0]), why)
 			if inner == nil {
 				continue
 			}
 		}
 		// errors folded
 		if t.typ == "CheckedEntry" {
-			c13ErrFold(c, inner.Parent(), inner, inner, "R10.4", fn.String()+"/fold")
+			c13ErrFold(c, inner.Parent(), inner, inner, "R10.4", FStr(fn)+"/fold")
 		} else {
-			c13ErrFold(c, inner.Parent(), inner, inner, "R10.4", fn.String())
+			c13ErrFold(c, inner.Parent(), inner, inner, "R10.4", FStr(fn))
 		}
 	}
 	// hooked.Write runs all hooks and folds errors
@@ -101,11 +101,11 @@ func checkC10(c *Ctx) {
 			}
 		}
 		if hc == nil {
-			c.Bad("R10.4", hw.String(), "visits-all", hw.Pos(), "no hook call")
+			c.Bad("R10.4", FStr(hw), "visits-all", hw.Pos(), "no hook call")
 		} else {
 			ok, over, why := LoopVisitsAll(hw, hc)
-			c.Check(ok && over == "h.funcs", "R10.4", hw.String(), "visits-all", hc.Pos(), "every hook runs (range over %s) %s", over, why)
-			c13ErrFold(c, hw, hc, hc, "R10.4", hw.String())
+			c.Check(ok && over == "h.funcs", "R10.4", FStr(hw), "visits-all", hc.Pos(), "every hook runs (range over %s) %s", over, why)
+			c13ErrFold(c, hw, hc, hc, "R10.4", FStr(hw))
 		}
 	}
 	// CheckedEntry.Write reports the aggregate
@@ -152,14 +152,14 @@ func checkC10(c *Ctx) {
 				}
 			}
 		}
-		c.Check(ok && len(aggAtoms) > 0, "R10.4", cw.String(), "aggregate-reported", cw.Pos(), "a non-nil aggregate error is printed to the entry's ErrorOutput when one is set, under no further condition (report path conditions seen: %v)", firstConds(seenConds, 3))
+		c.Check(ok && len(aggAtoms) > 0, "R10.4", FStr(cw), "aggregate-reported", cw.Pos(), "a non-nil aggregate error is printed to the entry's ErrorOutput when one is set, under no further condition (report path conditions seen: %v)", firstConds(seenConds, 3))
 		panics := 0
 		AllInstrs(cw, func(i ssa.Instruction) {
 			if _, isP := i.(*ssa.Panic); isP {
 				panics++
 			}
 		})
-		c.Check(panics == 0, "R10.4", cw.String(), "returns-normally", cw.Pos(), "CheckedEntry.Write contains no panic: core errors never abort the logging call")
+		c.Check(panics == 0, "R10.4", FStr(cw), "returns-normally", cw.Pos(), "CheckedEntry.Write contains no panic: core errors never abort the logging call")
 	}
 	// ioCore.Write returns the sink's error
 	iw := c.Method(CorePath, "ioCore", "Write")
@@ -188,10 +188,10 @@ func checkC10(c *Ctx) {
 			okE, whyE = errPropagated(iw, encC, 1)
 		}
 		if !okS || !okE {
-			c.Bad("R10.4", iw.String(), "returns-failures", iw.Pos(), "encoder and sink errors are returned to the caller (which folds and reports them): sink: %s; encoder: %s", whyS, whyE)
+			c.Bad("R10.4", FStr(iw), "returns-failures", iw.Pos(), "encoder and sink errors are returned to the caller (which folds and reports them): sink: %s; encoder: %s", whyS, whyE)
 		}
 		if okS && okE {
-			c.OK("R10.4", iw.String(), "returns-failures", iw.Pos(), "on every path from the encoder call and from the sink write to a return, a non-nil error of that call is what the function returns (a return of anything else is guarded by that error being nil)")
+			c.OK("R10.4", FStr(iw), "returns-failures", iw.Pos(), "on every path from the encoder call and from the sink write to a return, a non-nil error of that call is what the function returns (a return of anything else is guarded by that error being nil)")
 		}
 	}
 
@@ -218,14 +218,14 @@ func checkC10(c *Ctx) {
 				}
 			}
 		}
-		c.Check(ok, "R10.5", chk.String(), "error-output-threaded", chk.Pos(), "every entry that some core accepted carries the logger's error output before check returns")
+		c.Check(ok, "R10.5", FStr(chk), "error-output-threaded", chk.Pos(), "every entry that some core accepted carries the logger's error output before check returns")
 	}
 	_ = types.Typ
 }
 
 // c10Fold: CheckedEntry.Write folds each core's error into err with multierr.Append.
 func c10Fold(c *Ctx, fn *ssa.Function, inner *ssa.Call, _ bool) {
-	c13ErrFold(c, fn, inner, inner, "R10.4", fn.String()+"/fold")
+	c13ErrFold(c, fn, inner, inner, "R10.4", FStr(fn)+"/fold")
 }
 
 // carriesAppend: v is (or an eligible helper returns) the accumulator fed by multierr.Append.
@@ -357,7 +357,7 @@ func errPropagated(fn *ssa.Function, src *ssa.Call, idx int) (bool, string) {
 		h := src.Parent()
 		ok, why := errPropagated(h, src, idx)
 		if !ok {
-			return false, "in helper " + h.Name() + ": " + why
+			return false, "in helper " + FNm(h) + ": " + why
 		}
 		for _, cl := range Calls(fn) {
 			if c2, isC := cl.(*ssa.Call); isC && StaticCallee(c2) == h {
@@ -369,7 +369,7 @@ func errPropagated(fn *ssa.Function, src *ssa.Call, idx int) (bool, string) {
 					}
 				}
 				if ei < 0 {
-					return false, "helper " + h.Name() + " has no error result"
+					return false, "helper " + FNm(h) + " has no error result"
 				}
 				if res.Len() == 1 {
 					ei = -1
@@ -377,7 +377,7 @@ func errPropagated(fn *ssa.Function, src *ssa.Call, idx int) (bool, string) {
 				return errPropagated(fn, c2, ei)
 			}
 		}
-		return false, "call site of helper " + h.Name() + " not found"
+		return false, "call site of helper " + FNm(h) + " not found"
 	}
 	var errV ssa.Value
 	if idx < 0 {
@@ -530,8 +530,8 @@ func c10Recover(c *Ctx, rule string) {
 			full := m.FullName()
 			if full != "(fmt.Stringer).String" && full != "(error).Error" {
 				// type-parameter receivers constrained by fmt.Stringer; the error-group accessor of a user error
-				isGroup := m.Name() == "Errors" && strings.HasSuffix(full, "errorGroup).Errors")
-				if !(m.Name() == "String" && strings.Contains(full, "Stringer")) && !isGroup {
+				isGroup := FNm(m) == "Errors" && strings.HasSuffix(full, "errorGroup).Errors")
+				if !(FNm(m) == "String" && strings.Contains(full, "Stringer")) && !isGroup {
 					continue
 				}
 			}
@@ -544,7 +544,7 @@ func c10Recover(c *Ctx, rule string) {
 			isPayload := c10IsPayload(recv, 0)
 			if !isPayload {
 				if p == CorePath || p == ZapPath {
-					c.Triv(rule, FuncKey(fn), "listed/"+m.Name()+"("+d+")", call.Pos(), "%s() on %s: an error zap itself received from a marshaler/sink or built (not a user field payload) - listed, not required to be under recover", m.Name(), d)
+					c.Triv(rule, FuncKey(fn), "listed/"+FNm(m)+"("+d+")", call.Pos(), "%s() on %s: an error zap itself received from a marshaler/sink or built (not a user field payload) - listed, not required to be under recover", FNm(m), d)
 				}
 				continue
 			}
@@ -574,7 +574,7 @@ func c10Recover(c *Ctx, rule string) {
 					}
 				}
 			})
-			c.Check(rec, rule, FuncKey(fn), "recover/"+m.Name()+"("+d+")", call.Pos(), "the user's %s() runs after a defer whose closure calls recover() itself (recover in a helper called from the deferred function is one frame too deep and does nothing)", m.Name())
+			c.Check(rec, rule, FuncKey(fn), "recover/"+FNm(m)+"("+d+")", call.Pos(), "the user's %s() runs after a defer whose closure calls recover() itself (recover in a helper called from the deferred function is one frame too deep and does nothing)", FNm(m))
 		}
 	})
 	if n < 3 {
@@ -594,7 +594,7 @@ func c10Recover(c *Ctx, rule string) {
 			AllInstrs(f, func(i ssa.Instruction) {
 				switch x := i.(type) {
 				case *ssa.Call:
-					if x.Call.IsInvoke() && x.Call.Method.Name() == "AddString" && Desc(x.Call.Args[1]) == `"<nil>"` {
+					if x.Call.IsInvoke() && FNm(x.Call.Method) == "AddString" && Desc(x.Call.Args[1]) == `"<nil>"` {
 						okNil = true
 					}
 					if f2 := CalleeFunc(x); f2 != nil && f2.FullName() == "fmt.Errorf" {
@@ -628,14 +628,14 @@ func c10Recover(c *Ctx, rule string) {
 							}
 						}
 						if !guarded {
-							second = append(second, FuncKey(f)+": "+Desc(cm.Value)+"."+cm.Method.Name()+"()")
+							second = append(second, FuncKey(f)+": "+Desc(cm.Value)+"."+FNm(cm.Method)+"()")
 						}
 					}
 				}
 			}
 		}
-		c.Check(len(second) == 0, rule, fn.String(), "handler-cannot-panic-again", fn.Pos(), "the recover handler calls no method on reflect.TypeOf(v) without a nil test (TypeOf of a nil interface is nil): %v", second)
-		c.Check(okNil && okErr, rule, fn.String(), "converts-panic", fn.Pos(), "the recovered panic becomes \"<nil>\" for a nil pointer receiver and a PANIC=… error otherwise (nil=%v err=%v)", okNil, okErr)
+		c.Check(len(second) == 0, rule, FStr(fn), "handler-cannot-panic-again", fn.Pos(), "the recover handler calls no method on reflect.TypeOf(v) without a nil test (TypeOf of a nil interface is nil): %v", second)
+		c.Check(okNil && okErr, rule, FStr(fn), "converts-panic", fn.Pos(), "the recovered panic becomes \"<nil>\" for a nil pointer receiver and a PANIC=… error otherwise (nil=%v err=%v)", okNil, okErr)
 	}
 
 }
@@ -682,7 +682,7 @@ func c10Reflected(c *Ctx, rule string) {
 			Event: func(in ssa.Instruction, st *ConcState) string {
 				switch x := in.(type) {
 				case *ssa.Call:
-					if f := CalleeFunc(x); f != nil && f.Pkg() != nil && f.Pkg().Path() == "go.uber.org/zap/buffer" && isMutatingBufMethod(f.Name()) {
+					if f := CalleeFunc(x); f != nil && f.Pkg() != nil && f.Pkg().Path() == "go.uber.org/zap/buffer" && isMutatingBufMethod(FNm(f)) {
 						if args := Args(x); len(args) > 0 && encBufRecv(c, args[0]) {
 							return "w"
 						}
@@ -696,7 +696,7 @@ func c10Reflected(c *Ctx, rule string) {
 			},
 		})
 		if trunc || len(seqs) == 0 {
-			c.Und(rule, fn.String(), "encodes-before-writing", fn.Pos(), "path exploration incomplete (%d sequences)", len(seqs))
+			c.Und(rule, FStr(fn), "encodes-before-writing", fn.Pos(), "path exploration incomplete (%d sequences)", len(seqs))
 			continue
 		}
 		var bad []string
@@ -739,7 +739,7 @@ func c10Reflected(c *Ctx, rule string) {
 		if len(bad) > 0 {
 			ex = bad[0]
 		}
-		c.Check(len(bad) == 0 && okPaths > 0, rule, fn.String(), "encodes-before-writing", fn.Pos(),
+		c.Check(len(bad) == 0 && okPaths > 0, rule, FStr(fn), "encodes-before-writing", fn.Pos(),
 			"by path exploration (%d paths, encodeReflected forked into succeeded/failed): nothing is written to the encoder's buffer before the value is encoded nor after the encoding failed, and key/separator and value are written when it succeeded (offending path: %s)", len(seqs), ex)
 	}
 
@@ -813,11 +813,11 @@ func c10BuildOptionOrder(c *Ctx, rule string) {
 			return ""
 		},
 		Inline: func(h *ssa.Function) bool {
-			return !strings.HasSuffix(h.String(), ".buildOptions") && h.Name() != "WithOptions" && h.Name() != "New"
+			return FNm(h) != "buildOptions" && FNm(h) != "WithOptions" && FNm(h) != "New"
 		},
 	})
 	if trunc || len(seqs) == 0 {
-		c.Und(rule, fn.String(), "caller-options-last", fn.Pos(), "path exploration incomplete (%d sequences)", len(seqs))
+		c.Und(rule, FStr(fn), "caller-options-last", fn.Pos(), "path exploration incomplete (%d sequences)", len(seqs))
 		return
 	}
 	var bad []string
@@ -842,7 +842,7 @@ func c10BuildOptionOrder(c *Ctx, rule string) {
 			bad = append(bad, sq)
 		}
 	}
-	c.Check(len(bad) == 0 && built > 0, rule, fn.String(), "caller-options-last", fn.Pos(), "on every path that builds a logger the configuration's options take effect first and the caller's after them (so the caller's ErrorOutput, hooks, … win): %v", bad)
+	c.Check(len(bad) == 0 && built > 0, rule, FStr(fn), "caller-options-last", fn.Pos(), "on every path that builds a logger the configuration's options take effect first and the caller's after them (so the caller's ErrorOutput, hooks, … win): %v", bad)
 }
 
 // c10ScratchReset: by path exploration of jsonEncoder.encodeReflected (helpers inline): immediately before every
@@ -872,7 +872,7 @@ func c10ScratchReset(c *Ctx, rule string) {
 		for i := 0; i < st.NumFields(); i++ {
 			if it, isI := types.Unalias(st.Field(i).Type()).Underlying().(*types.Interface); isI {
 				for k := 0; k < it.NumMethods(); k++ {
-					if it.Method(k).Name() == "Encode" {
+					if FNm(it.Method(k)) == "Encode" {
 						reflEnc = FN(st.Field(i))
 					}
 				}
@@ -910,10 +910,10 @@ func c10ScratchReset(c *Ctx, rule string) {
 				if IsCallTo(x, "(*go.uber.org/zap/buffer.Buffer).Reset") && isScratch(st, Args(x)[0]) {
 					return "empty"
 				}
-				if x.Call.IsInvoke() && x.Call.Method.Name() == "Encode" {
+				if x.Call.IsInvoke() && FNm(x.Call.Method) == "Encode" {
 					return "encode"
 				}
-				if f := CalleeFunc(x); f != nil && f.Pkg() != nil && f.Pkg().Path() == "go.uber.org/zap/buffer" && isMutatingBufMethod(f.Name()) && f.Name() != "Reset" && f.Name() != "TrimNewline" && isScratch(st, Args(x)[0]) {
+				if f := CalleeFunc(x); f != nil && f.Pkg() != nil && f.Pkg().Path() == "go.uber.org/zap/buffer" && isMutatingBufMethod(FNm(f)) && FNm(f) != "Reset" && FNm(f) != "TrimNewline" && isScratch(st, Args(x)[0]) {
 					return "dirty"
 				}
 			case *ssa.Store:
@@ -972,7 +972,7 @@ func c10ScratchReset(c *Ctx, rule string) {
 			}
 		}
 	}
-	c.Check(!trunc && nEnc > 0 && len(bad) == 0, rule, er.String(), "scratch-emptied-before-encode", er.Pos(), "on every one of the %d paths the scratch buffer %s is Reset - or freshly taken from the pool and the reflection encoder rebuilt over it - immediately before the value is encoded into it (offending: %v)", len(seqs), scratch, bad)
+	c.Check(!trunc && nEnc > 0 && len(bad) == 0, rule, FStr(er), "scratch-emptied-before-encode", er.Pos(), "on every one of the %d paths the scratch buffer %s is Reset - or freshly taken from the pool and the reflection encoder rebuilt over it - immediately before the value is encoded into it (offending: %v)", len(seqs), scratch, bad)
 }
 
 // c10NoErrorOverwrittenInLoop: no loop of the library carries an error from one round to the next only to overwrite
